@@ -4,6 +4,9 @@
 WT=${WT:-/tmp/mut/mwt}; H=${HARNESS:-/tmp/verif3}
 export GOFLAGS=-mod=mod GOPROXY=off GOSUMDB=off GOTOOLCHAIN=local VERIF_DIR=$H
 patch=$(readlink -f "$1"); shift
+# create the scratch worktree and the scratch harness copy on first use
+if [ ! -d $WT ]; then git -C /repo worktree add --detach $WT $(git -C /repo rev-parse HEAD) >/dev/null 2>&1; fi
+if [ ! -f $H/go.mod ]; then mkdir -p $H/evidence; rsync -a --exclude bin --exclude scratch --exclude replays --exclude .git --exclude evidence /verif/ $H/; sed -i "s|=> /repo|=> $WT|" $H/go.mod; fi
 git -C $WT checkout -q -- . ; git -C $WT clean -fdq
 git -C $WT apply $patch || { echo "PATCH DOES NOT APPLY"; exit 2; }
 rsync -a --exclude bin --exclude scratch --exclude replays --exclude .git --exclude evidence --exclude go.mod /verif/ $H/
